@@ -1,7 +1,24 @@
-import ErgoVerif.Model.Cron
-namespace ErgoVerif.Props.C20
-open ErgoVerif.Cron
+/-
+C20 — Cron: jobs run exactly at the minutes their spec denotes.
 
-theorem placeholder : (parseSpec "@daily".toList).map Spec.print = some "10 3 * * *".toList := by decide
+Model: ErgoVerif.Model.Cron (node/cron_parse.go), ErgoVerif.Model.CronSched (node/cron.go).
+-/
+import ErgoVerif.Lemmas.CronSpec
+namespace ErgoVerif.Props.C20
+open ErgoVerif.Cron ErgoVerif.Generated.Cron
+
+/-- For every valid spec and every well-formed civil time the code's matcher on the compiled bit masks
+    (cronSpecMask.IsRunAt ∘ cronParseSpecField) equals the crontab denotation: lists, ranges, steps, `L`, `wL`, `w#n`,
+    and day-of-month OR day-of-week when both are restricted. -/
+theorem C20_mask_eq (s : Spec) (hs : s.valid = true) (c : Civil) (hc : c.wf) :
+    specIsRunAt (compileSpec s) c = s.denote c :=
+  specIsRunAt_eq_denote s hs c hc
+
+-- non-vacuity: a valid spec with every kind of option, a well-formed time, both outcomes
+example : (⟨.list [.starStep 15, .num 59], .list [.rangeStep 0 23 2], .list [.num 1, .last], .star,
+           .list [.nth 1 2, .lastW 7, .range 2 3]⟩ : Spec).valid = true := by decide
+example : (⟨2026, 3, 31, 22, 45, 2⟩ : Civil).wf := by decide
+example : specIsRunAt (compileSpec ⟨.list [.starStep 15], .star, .list [.last], .star, .list [.lastW 7]⟩) ⟨2026, 3, 31, 22, 45, 2⟩ = true := by decide
+example : specIsRunAt (compileSpec ⟨.list [.starStep 15], .star, .list [.last], .star, .list [.lastW 7]⟩) ⟨2026, 3, 30, 22, 45, 1⟩ = false := by decide
 
 end ErgoVerif.Props.C20
